@@ -108,14 +108,17 @@ _add("SmVerif.Tie.Props2", "RsDecoder", [_P + n for n in [
     "gen_c12_header_rule_slice", "gen_c12_header_rule_empty", "gen_c12_reader_eq_slice", "gen_c12_errors_coincide"]])
 
 # which tie modules speak about code a property's theorems depend on
+_add("SmVerif.Tie.Props3", "RsSerialize", [_P + n for n in
+    "emit_bytes emit_lines rmiTail_pieces gen_serialisers gen_c01_mappings_roundtrip gen_c01_mappings_roundtrip_self gen_c01_mappings_roundtrip_raw gen_c07_flags_roundtrip gen_c01_idempotent gen_c03_spec_reads_encoder".split()])
+
 PROP_MODULES = {
-    "C01": ["SmVerif.Tie.Vlq", "SmVerif.Tie.Decode", "SmVerif.Tie.Serialize"],
+    "C01": ["SmVerif.Tie.Vlq", "SmVerif.Tie.Decode", "SmVerif.Tie.Serialize", "SmVerif.Tie.Props3"],
     "C02": ["SmVerif.Tie.Vlq", "SmVerif.Tie.Decode", "SmVerif.Tie.Props", "SmVerif.Tie.Prefix"],
-    "C03": ["SmVerif.Tie.Vlq", "SmVerif.Tie.Serialize"],
+    "C03": ["SmVerif.Tie.Vlq", "SmVerif.Tie.Serialize", "SmVerif.Tie.Props3"],
     "C04": ["SmVerif.Tie.Lookup", "SmVerif.Tie.Props", "SmVerif.Tie.Index"],
     "C05": ["SmVerif.Tie.Vlq", "SmVerif.Tie.Header", "SmVerif.Tie.Decode", "SmVerif.Tie.Lookup", "SmVerif.Tie.Hermes", "SmVerif.Tie.Serialize", "SmVerif.Tie.Props", "SmVerif.Tie.SourceView", "SmVerif.Tie.Detect", "SmVerif.Tie.RamBundle", "SmVerif.Tie.JsIdent", "SmVerif.Tie.Reader", "SmVerif.Tie.Index", "SmVerif.Tie.Adjust", "SmVerif.Tie.HermesDecode", "SmVerif.Tie.GetLine", "SmVerif.Tie.Flatten", "SmVerif.Tie.Rewrite", "SmVerif.Tie.RevIter"],
     "C06": ["SmVerif.Tie.Vlq", "SmVerif.Tie.Decode", "SmVerif.Tie.Props"],
-    "C07": ["SmVerif.Tie.Vlq", "SmVerif.Tie.Small", "SmVerif.Tie.Decode", "SmVerif.Tie.Lookup", "SmVerif.Tie.Serialize", "SmVerif.Tie.Props"],
+    "C07": ["SmVerif.Tie.Vlq", "SmVerif.Tie.Small", "SmVerif.Tie.Decode", "SmVerif.Tie.Lookup", "SmVerif.Tie.Serialize", "SmVerif.Tie.Props", "SmVerif.Tie.Props3"],
     "C10": ["SmVerif.Tie.Adjust"],
     "C11": ["SmVerif.Tie.Vlq", "SmVerif.Tie.Props"],
     "C12": ["SmVerif.Tie.Header", "SmVerif.Tie.Props2", "SmVerif.Tie.Reader"],
